@@ -333,14 +333,179 @@ def _copy_payload(ctx):
 
 
 def _at_placeholder(ctx):
-    """parse_value: Token::AtSign followed by a word is glued into Placeholder("@" + word) even when blanks
-    (or a second @) separate them; the glued text lexes as one word."""
-    ph = [p for p in _variants(ctx, "Placeholder") if isinstance(p, str) and p.startswith("@")]
+    """parse_value: Token::AtSign / Token::Colon followed by a word is glued into Placeholder(prefix + word.value): blanks
+    between them, a second @, and the quotes of a quoted word are dropped; the glued text lexes differently."""
+    ph = [p for p in _variants(ctx, "Placeholder") if isinstance(p, str) and p[:1] in "@:"]
     if not ph:
         return False
     if ctx["kind"] == "content":
-        return any(it[0] in ("w", "p") and it[-1] in ph for it in ctx["invented"])
-    return "Placeholder" in ctx["detail"] or ctx["kind"] in ("reparse-error", "different-tree")
+        return any(it[-1] in ph for it in ctx["invented"]) or \
+            any(it[0] == "w" and it[1] is not None and (("@" + it[2]) in ph or (":" + it[2]) in ph) for it in ctx["lost"])
+    odd = any(not re.fullmatch(r"[A-Za-z_][A-Za-z0-9_]*", p[1:]) for p in ph)
+    return odd or ("Value" in ctx["detail"] and "Identifier" in ctx["detail"])
+
+
+def value_sites(ast, value):
+    """Where a string equal to `value` sits in a serde tree: [(site, quote_style or None, inside_ident)].
+    site = the nearest enclosing enum variant plus the field names below it (indexes dropped)."""
+    out = []
+
+    def site_of(path):
+        keys = [k for k in path if isinstance(k, str)]
+        caps = [i for i, k in enumerate(keys) if k[:1].isupper()]
+        if not caps:
+            return ".".join(keys[-2:])
+        i = caps[-1]
+        if i == len(keys) - 1 and i > 0:
+            i -= 1
+        return ".".join(keys[i:])
+
+    def go(x, path):
+        if isinstance(x, dict):
+            if set(x) == {"value", "quote_style"} and x["value"] == value:
+                out.append((site_of(path), x["quote_style"], True))
+                return
+            for k, v in x.items():
+                go(v, path + [k])
+        elif isinstance(x, list):
+            for i, v in enumerate(x):
+                go(v, path + [i])
+        elif isinstance(x, str) and x == value:
+            out.append((site_of(path), None, False))
+    go(ast, [])
+    return out
+
+
+# AST sites grouped by the Display impl / parser function that owns them (keeps the list of keys reviewable;
+# a site that matches no group keeps its own name, i.e. is a new key)
+SITE_GROUPS = [
+    (r"^comment\.|^CommentDef", "CommentDef"),
+    (r"^Comment\.comment", "Statement::Comment"),
+    (r"^for_xml\.|^Xml\.|^Json\.|^ForClause", "ForClause"),
+    (r"hive_formats|^SERDE\.|^Directory\.|^using\.", "Hive-clauses"),
+    (r"^CreateTable\.with_tags", "Tag"),
+    (r"^CreateTable\.(engine|default_charset|collation|default_ddl_collation)", "CreateTable-options"),
+    (r"Datetime64", "DataType::Datetime64"),
+    (r"^SetNames\.", "SetNames"),
+    (r"^column_position\.", "MySQLColumnPosition"),
+    (r"^CopyIntoSnowflake", "CopyIntoSnowflake"),
+    (r"^Table\.(table_name|schema_name)", "SetExpr::Table"),
+    (r"PGCustomBinaryOperator", "PGCustomBinaryOperator"),
+]
+
+
+def site_group(site):
+    for rx, g in SITE_GROUPS:
+        if re.search(rx, site):
+            return g
+    return site
+
+
+def _plain(ctx):
+    return "…" not in ctx["printed"]
+
+
+def _string_printed_raw(ctx):
+    """A string literal stored as a bare String and printed as '{}' without escaping."""
+    if not ctx["unescape"]:
+        return None
+    for t in ctx["lits"]:
+        if t["k"] != "Str":
+            continue
+        # a quote that the heuristic Value printer would have doubled (not already doubled, not after a backslash)
+        lone = "'" in re.sub(r"''|\\\\'", "", t["s"])
+        if lone and ("'" + t["s"] + "'") in ctx["printed"] and ("'" + t["s"].replace("'", "''") + "'") not in ctx["printed"]:
+            sites = [st for a in _asts(ctx) for st, _, ident in value_sites(a, t["s"]) if not ident]
+            return "string-printed-unescaped:%s" % site_group(sites[0] if sites else ctx["sk"])
+    return None
+
+
+def _bigquery_path_split(ctx):
+    """BigQuery: a quoted name containing dots is split into one part per dot by parse_object_name."""
+    if ctx["d"] != "bigquery" or ctx["kind"] != "content":
+        return False
+    inv = [it[-1] for it in ctx["invented"]]
+    return bool(ctx["lost"]) and all("." in it[-1] and all(p in inv for p in it[-1].split(".")) for it in ctx["lost"])
+
+
+def _kind_normalised(ctx):
+    """parse_literal_string accepts '..', "..", E'..', U&'..', $$..$$-as-word and quoted words, keeps only the text;
+    printers emit '..'."""
+    if ctx["kind"] != "content" or not ctx["lost"]:
+        return False
+    inv = [it[1] for it in ctx["invented"] if it[0] == "KSingle"]
+    return all(it[-1] in inv and it[0] != "n" for it in ctx["lost"])
+
+
+def _uint_normalised(ctx):
+    """parse_literal_uint: the digits become a u64 and are printed canonically (007 -> 7)."""
+    if ctx["kind"] != "content" or not ctx["lost"]:
+        return False
+    try:
+        a = sorted(int(it[1]) for it in ctx["lost"] if it[0] == "n")
+        b = sorted(int(it[1]) for it in ctx["invented"] if it[0] == "n")
+    except ValueError:
+        return False
+    return len(a) == len(ctx["lost"]) and len(b) == len(ctx["invented"]) and a == b
+
+
+def _quotes_dropped(ctx):
+    """A quoted identifier stored as a bare String (or printed through ident.value) and printed without its quotes."""
+    close = {'"': '"', "`": "`", "[": "]"}
+    for t in ctx["lits"]:
+        if t["k"] == "Word" and t["q"] in close:
+            q, v, item = t["q"], t["v"], ["w", t["q"], t["v"]]
+        elif t["k"] == "Str" and t["kind"] == "KDouble":
+            q, v, item = '"', t["s"], ["KDouble", t["s"]]
+        else:
+            continue
+        hit = False
+        if ctx["kind"] == "content":
+            hit = item in ctx["lost"] and not any(is_lit_item(it) and it[-1] == v for it in ctx["invented"])
+        elif ctx["kind"] == "print-untokenizable" or (ctx["kind"] in ("reparse-error", "different-tree", "count") and _plain(ctx)):
+            c = close[q]
+            hit = (q + v.replace(c, c + c) + c) not in ctx["printed"] and (q + v + c) not in ctx["printed"]
+        raw = False
+        if not hit and close[q] in v and ctx["kind"] != "content":
+            c = close[q]
+            raw = (q + v + c) in ctx["printed"] and (q + v.replace(c, c + c) + c) not in ctx["printed"]
+        if hit or raw:
+            found = [x for a in _asts(ctx) for x in value_sites(a, v)] + [x for a in _asts(ctx) for x in value_sites(a, q + v + close[q])]
+            bare = [st for st, _, ident in found if not ident]
+            site = bare[0] if bare else (found[0][0] if found else ctx["sk"])
+            return "%s:%s" % ("identifier-quotes-dropped" if hit else "identifier-printed-unescaped", site_group(site))
+    return None
+
+
+def _function_arg_name(ctx):
+    if ctx["kind"] != "content" or not ctx["lost"] or ctx["invented"] or any(it[0] != "w" for it in ctx["lost"]):
+        return False
+    for a in _asts(ctx):
+        for x in walk(a):
+            if isinstance(x, dict) and set(x) == {"mode", "name", "data_type", "default_expr"}:
+                return True
+    return False
+
+
+def _redshift_bracket(ctx):
+    """Redshift lexes `[x..]` as a delimited identifier when x can start an identifier: a subscript whose printed
+    form starts with a letter (0x1F prints as X'1F') turns into a bracket-quoted word."""
+    return ctx["d"] == "redshift" and re.search(r"\[[A-Za-z_]", ctx["printed"]) is not None and \
+        any(True for _ in _variants(ctx, "HexStringLiteral"))
+
+
+def _snowflake_dangling(ctx):
+    """Snowflake CREATE TABLE a CLONE / LIKE: the name is parsed with `.ok()`, so a missing name is accepted and the
+    clause is dropped; the statement prints as `CREATE TABLE a ()`."""
+    if ctx["d"] != "snowflake" or "CreateTable" not in ctx["sk"].split("+"):
+        return False
+    if ctx["kind"] == "content":
+        return _only_kw(ctx) and _kwset(ctx) <= {"CLONE", "LIKE"}
+    return ctx["kind"] == "reparse-error" and ctx["printed"].rstrip().endswith("()") and "unexpected end of input" in ctx["detail"]
+
+
+def _version_alias(ctx):
+    return ctx["kind"] == "reparse-error" and any(isinstance(t, dict) and t.get("version") and t.get("alias") for t in _variants(ctx, "Table"))
 
 
 def _prefix_pair_key(ctx):
@@ -350,7 +515,7 @@ def _prefix_pair_key(ctx):
     for a in _asts(ctx):
         for o, i in prefix_pairs(a):
             if (o + i) in printed:
-                return "prefix-op:%s%s" % (o, i)
+                return "core:prefix-pair:%s%s" % (o, i)
     return None
 
 
@@ -368,8 +533,17 @@ RULES = [
     ("Declare:mssql-multiple", _mssql_declare_multi),
     ("AlterRole:mssql-rename", _mssql_alter_role_rename),
     ("Copy:stdin-payload", _copy_payload),
-    ("Placeholder:at-sign-glued", _at_placeholder),
+    ("Placeholder:prefix-glued-to-word", _at_placeholder),
+    ("bigquery:quoted-path-split", _bigquery_path_split),
+    ("parse_literal_uint:normalised", _uint_normalised),
+    ("OperateFunctionArg:qualified-name-truncated", _function_arg_name),
+    ("TableFactor:version-before-alias", _version_alias),
+    ("CreateTable:snowflake-clone-like-without-name", _snowflake_dangling),
+    ("redshift:bracket-subscript-vs-delimited-identifier", _redshift_bracket),
 ]
+# rules that compute their key (site-dependent)
+KEY_RULES = [_string_printed_raw, _quotes_dropped]
+LATE_RULES = [("parse_literal_string:kind-normalised", _kind_normalised)]
 
 
 def generic_site(path):
@@ -388,23 +562,33 @@ def err_class(detail):
 def make_ctx(case, sk, kind, printed="", path=None, detail=None, ast=None, lits=None, lost=None, invented=None, kw=None):
     return {"d": case["dialect"], "sql": case.get("mutated") or case["sql"], "sk": sk, "kind": kind, "printed": printed or "",
             "path": path or "", "detail": detail or "", "ast": load_ast(ast) if isinstance(ast, str) else ast, "lits": lits or [],
-            "lost": lost or [], "invented": invented or [], "kw": kw or []}
+            "lost": lost or [], "invented": invented or [], "kw": kw or [], "unescape": case.get("unescape", True)}
 
 
 def root_key(ctx, extra_rules=()):
     """Stable key of one failure."""
-    pk = _prefix_pair_key(ctx)
-    if pk:
-        return pk
     for key, pred in list(extra_rules) + RULES:
         try:
             if pred(ctx):
                 return key
         except Exception:
             pass
+    pk = _prefix_pair_key(ctx)
+    if pk:
+        return pk
     cls = lit_classes(ctx["d"], ctx["lits"])
     if cls and literal_involved(ctx):
         return "literal:" + cls[0]
+    for fn in KEY_RULES:
+        try:
+            k = fn(ctx)
+            if k:
+                return k
+        except Exception:
+            pass
+    for key, pred in LATE_RULES:
+        if pred(ctx):
+            return key
     return None
 
 
@@ -543,6 +727,7 @@ class Judge:
         self.by_key = collections.Counter()
         self.unlisted = collections.Counter()
         self.examples = {}
+        self.pending = collections.OrderedDict()
         self.accepted_pairs = set()
 
     def stream(self, name):
@@ -554,15 +739,25 @@ class Judge:
         st["failures_by_key"][key] = st["failures_by_key"].get(key, 0) + 1
         self.by_key[key] += 1
         if key not in self.examples:
-            self.examples[key] = {k: replay[k] for k in ("dialect", "input", "options", "observed") if k in replay}
+            self.examples[key] = json.loads(json.dumps({k: replay[k] for k in ("dialect", "input", "options", "observed") if k in replay}))
+            ob = self.examples[key].get("observed")
+            if isinstance(ob, dict) and isinstance(ob.get("printed"), str):
+                ob["printed"] = ob["printed"][:400]
+            if isinstance(self.examples[key].get("input"), str):
+                self.examples[key]["input"] = self.examples[key]["input"][:600]
         if key in self.known:
             self.run.known(key, self.known[key])
         else:
             self.unlisted[key] += 1
             if self.unlisted[key] <= MAX_REPLAY_PER_KEY:
-                self.run.violation(dict(replay, key=key))
+                self.pending.setdefault(key, []).append(dict(replay, key=key, failures_with_this_key="see coverage.outside_model.unlisted_keys"))
 
     def finish(self):
+        # replay files: one per unlisted key first, then the second of each, ... (common.Run caps the files per run)
+        for i in range(MAX_REPLAY_PER_KEY):
+            for key, reps in self.pending.items():
+                if i < len(reps):
+                    self.run.violation(reps[i])
         self.run.notes["outside_model"] = {
             "streams": self.stats,
             "failures_by_key": dict(self.by_key.most_common()),
